@@ -33,6 +33,7 @@ type PropSpec struct {
 	MaxPaths    int      // per unit
 	TimeoutMs   int      // per solver query
 	Reach       []string // vacuity labels that must be reached somewhere
+	ReachEntry  map[string]string // vacuity label → the only entry that can reach it (skipped when that entry's harness file was dropped)
 	Bounds      func(tier string) map[string]interface{}
 	Assumptions []string
 	Rule        string
@@ -258,7 +259,11 @@ func runCheck(prop, tier string) int {
 	}
 	loadS := time.Since(start).Seconds()
 	native := NewNativeRunner(*flagRepo, *flagHarness)
+	native.files = sh.harnessFiles
 	defer native.Close()
+	for _, dg := range sh.degraded {
+		fmt.Printf("DEGRADED property=%s harness file %s\n", prop, dg)
+	}
 	var nativeRace *NativeRunner // built lazily: only candidates that do not reproduce sequentially are re-run under -race
 	defer func() {
 		if nativeRace != nil {
@@ -292,11 +297,29 @@ func runCheck(prop, tier string) int {
 		}
 		units = keep
 	}
-	for _, u := range units {
-		if sh.entry(u.Entry) == nil {
-			fmt.Printf("INCONCLUSIVE property=%s harness entry %s missing\n", prop, u.Entry)
-			return 2
+	unitsDropped := 0
+	droppedEntries := map[string]bool{}
+	{
+		var keep []Unit
+		missing := map[string]int{}
+		for _, u := range units {
+			if sh.entry(u.Entry) == nil {
+				missing[u.Entry]++
+				continue
+			}
+			keep = append(keep, u)
 		}
+		for e, n := range missing {
+			if len(sh.degraded) == 0 || len(keep) == 0 {
+				fmt.Printf("INCONCLUSIVE property=%s harness entry %s missing\n", prop, e)
+				writeInconclusiveEvidence(prop, tier, seed, start, "harness entry "+e+" missing: "+strings.Join(sh.degraded, "; "))
+				return 2
+			}
+			fmt.Printf("DEGRADED property=%s %d units of entry %s are not run (its harness file does not type-check against the current tree)\n", prop, n, e)
+			unitsDropped += n
+			droppedEntries[e] = true
+		}
+		units = keep
 	}
 	solverKind := spec.Solver
 	if solverKind == "" {
@@ -483,6 +506,7 @@ func runCheck(prop, tier string) int {
 			// the same calls from several goroutines under the race detector
 			if nativeRace == nil {
 				nativeRace = NewNativeRunner(*flagRepo, *flagHarness)
+				nativeRace.files = sh.harnessFiles
 				nativeRace.race = true
 			}
 			rres, rerr := nativeRace.Run(files[:1])
@@ -523,7 +547,7 @@ func runCheck(prop, tier string) int {
 	// vacuity
 	var missingReach []string
 	for _, l := range spec.Reach {
-		if !reached[l] {
+		if !reached[l] && !droppedEntries[spec.ReachEntry[l]] {
 			missingReach = append(missingReach, l)
 		}
 	}
@@ -571,6 +595,10 @@ func runCheck(prop, tier string) int {
 	bounds["units_planned"] = len(units)
 	bounds["units_explored"] = exploredUnits
 	bounds["units_skipped_wall_budget"] = skippedUnits
+	if len(sh.degraded) > 0 {
+		bounds["degraded_harness_files"] = sh.degraded
+		bounds["units_not_run_missing_entry"] = unitsDropped
+	}
 	bounds["max_steps_per_path"] = maxSteps
 	bounds["max_paths_per_unit"] = maxPaths
 	bounds["solver_timeout_ms"] = timeoutMs
@@ -824,6 +852,9 @@ func replayCommand(prop, path string) int {
 		return 2
 	}
 	native := NewNativeRunner(*flagRepo, *flagHarness)
+	if sh, lerr := LoadProgram(*flagRepo, *flagHarness); lerr == nil {
+		native.files = sh.harnessFiles // the harness files that type-check against the current tree
+	}
 	if sp := propSpecs[rf.Property]; sp != nil {
 		native.race = sp.Race
 	}
